@@ -84,35 +84,84 @@ def run(ctx: Ctx):
                    f"buffers are mutually transposable)", rel, c.lineno, sample=dict(formal=k, arg=got.get(k)))
 
     # ---- S3 layout constants ------------------------------------------------------------------------
-    def layout(f, ids_store: bool):
-        """(U, size(ids), size(logps), size(logbs)) as canonical polys, O kept symbolic."""
-        sub = _single_assign_subst(f)
-        # U: the name subtracted inside a subscript of `ids`
-        uname = None
+    # roles are recovered by dataflow, never by local names:
+    #   builder buffers  = slots of the returned 4-tuple, matched to register_buffer names through __init__'s unpack
+    #   U                = the name subtracted inside a subscript of the ids buffer
+    #   O                = builder: the size the offsets buffer is allocated with; kernel: offsets.numel()
+    #   shift            = kernel: the name bound to the `0 if 0 <= sos < V else 1` expression
+    rdb = ReachingDefs(build.node)
+    bret = [st for st, _ in rdb.return_envs][-1]
+    unp = [n for n in own_nodes(init.node) if isinstance(n, ast.Assign) and isinstance(n.targets[0], ast.Tuple)
+           and isinstance(n.value, ast.Call) and u(n.value.func) == "self._build_trie"]
+    if not unp or not isinstance(bret.value, ast.Tuple) or len(bret.value.elts) != len(unp[0].targets[0].elts):
+        raise AnalysisError("C06: cannot match _build_trie's returned buffers with __init__'s unpack")
+    init_names = [u(t) for t in unp[0].targets[0].elts]
+    regmap = {}
+    for c in own_calls(init.node):
+        if isinstance(c.func, ast.Attribute) and c.func.attr == "register_buffer" and len(c.args) == 2 \
+                and isinstance(c.args[0], ast.Constant):
+            regmap[u(c.args[1])] = c.args[0].value
+    bbuf = {}  # buffer name -> builder local
+    for loc, nm in zip(bret.value.elts, init_names):
+        if nm in regmap:
+            bbuf[regmap[nm]] = u(loc)
+    if set(bbuf) != {"logps", "logbs", "ids", "offsets"}:
+        raise AnalysisError(f"C06: builder buffers resolved to {bbuf}")
+
+    def u_name(f, ids_local):
         for n in own_nodes(f.node):
-            if isinstance(n, ast.Subscript) and u(n.value) == "ids":
+            if isinstance(n, ast.Subscript) and u(n.value) == ids_local:
                 for x in ast.walk(n.slice):
                     if isinstance(x, ast.BinOp) and isinstance(x.op, ast.Sub) and isinstance(x.right, ast.Name):
-                        uname = x.right.id
-        if uname is None or uname not in sub:
-            raise AnalysisError(f"C06: cannot locate the unigram offset U in {f.qualname}")
-        keep = {k: v for k, v in sub.items() if k not in ("O", "shift")}
-        # names bound from self.* by parallel assignment are substituted, then renamed
-        nz = Normalizer(rename=_ren, subst=keep)
-        return uname, nz, sub
+                        return x.right.id
+        raise AnalysisError(f"C06: cannot locate the unigram offset U in {f.qualname}")
 
-    ub, nzb, subb = layout(build, True)
-    uk, nzk, subk = layout(kern, False)
+    subb = _single_assign_subst(build)
+    # names bound to model fields by a parallel assignment (N, G, V = self.max_ngram, ...) keep that meaning up to
+    # their first re-assignment; the layout statement must precede it (checked by line order)
+    for n in own_nodes(build.node):
+        if isinstance(n, ast.Assign) and isinstance(n.targets[0], ast.Tuple) and isinstance(n.value, ast.Tuple) \
+                and all(u(v).startswith("self.") for v in n.value.elts):
+            for t, v in zip(n.targets[0].elts, n.value.elts):
+                if isinstance(t, ast.Name) and t.id not in subb:
+                    later = [m.lineno for m in own_nodes(build.node) if isinstance(m, (ast.Assign, ast.AugAssign))
+                             and m.lineno > n.lineno and any(isinstance(x, ast.Name) and x.id == t.id and isinstance(x.ctx, ast.Store)
+                                                             for x in ast.walk(m))]
+                    first_re = min(later) if later else 10 ** 9
+                    layout_line = max((m.lineno for m in own_nodes(build.node) if isinstance(m, ast.Assign)
+                                       and any(isinstance(x, ast.Name) and isinstance(x.ctx, ast.Load) and x.id == t.id for x in ast.walk(m.value))
+                                       and m.lineno < first_re and "torch.zeros" not in u(m.value)), default=0)
+                    if layout_line < first_re:
+                        subb[t.id] = v
+    subk = _single_assign_subst(kern)
+    ub, uk = u_name(build, bbuf["ids"]), u_name(kern, "ids")
+    alloc_nodes = {}
+    for n in own_nodes(build.node):
+        if isinstance(n, ast.Assign) and isinstance(n.value, ast.Call) and call_name(n.value) == "torch.zeros" \
+                and isinstance(n.targets[0], ast.Name) and n.value.args:
+            alloc_nodes[n.targets[0].id] = n.value.args[0]
+    ob = u(alloc_nodes.get(bbuf["offsets"])) if bbuf["offsets"] in alloc_nodes else None
+    ok_name = next((k for k, v in subk.items() if u(v) == "offsets.numel()"), None)
+    shift_k = next((k for k, v in subk.items() if isinstance(v, ast.IfExp)), None)
+    if ob is None or ok_name is None or shift_k is None:
+        raise AnalysisError("C06: cannot recover O / shift roles in the builder or the kernel")
+
+    def mk(sub, keep_out, ren_extra):
+        def ren(s_):
+            s_ = _ren(s_)
+            for a, b_ in ren_extra.items():
+                s_ = s_ if s_ != a else b_
+            return s_
+        return Normalizer(rename=ren, subst={k: v for k, v in sub.items() if k not in keep_out})
+
+    nzb = mk(subb, {ob}, {ob: "O"})
+    nzk = mk(subk, {ok_name, shift_k}, {ok_name: "O", shift_k: "shift"})
     Ub, Uk = pstr(nzb.poly(ast.Name(id=ub, ctx=ast.Load()))), pstr(nzk.poly(ast.Name(id=uk, ctx=ast.Load())))
     col.ob("G12", "S3", f"{rel}::layout::U(builder==kernel)", Ub == Uk,
            f"the builder places n-gram ids at offset U = {Ub}, the kernel reads them at U = {Uk}", rel, kern.line,
            sample=dict(builder=Ub, kernel=Uk))
     # sizes: builder allocates torch.zeros(<size>) for each buffer; kernel asserts (ids, logps, logbs) sizes
-    alloc = {}
-    for n in own_nodes(build.node):
-        if isinstance(n, ast.Assign) and isinstance(n.value, ast.Call) and call_name(n.value) == "torch.zeros" \
-                and isinstance(n.targets[0], ast.Name) and n.value.args:
-            alloc[n.targets[0].id] = pstr(nzb.poly(n.value.args[0]))
+    alloc = {name: pstr(nzb.poly(alloc_nodes[loc])) for name, loc in bbuf.items() if loc in alloc_nodes}
     asserted = {}
     for n in own_nodes(kern.node):
         if isinstance(n, ast.Assert) and isinstance(n.test, ast.Compare) and isinstance(n.test.left, ast.Tuple) \
@@ -128,10 +177,8 @@ def run(ctx: Ctx):
                sample=dict(buffer=buf, builder=a, kernel=b))
     col.ob("G12", "S3", f"{rel}::layout::size(offsets)==size(logbs)", alloc.get("offsets") == alloc.get("logbs"),
            f"offsets has {alloc.get('offsets')} entries but logbs {alloc.get('logbs')}", rel, build.line)
-    # the kernel's O is offsets.numel()
-    okO = "O" in subk and u(subk["O"]) == "offsets.numel()" or any(
-        isinstance(n, ast.Assign) and "offsets.numel()" in u(n.value) and "O" in u(n.targets[0]) for n in own_nodes(kern.node))
-    col.ob("G12", "S3", f"{rel}::{KERNEL}::O=offsets.numel()", okO, "the kernel's O is not offsets.numel()", rel, kern.line)
+    col.ob("G12", "S3", f"{rel}::{KERNEL}::O=offsets.numel()", ok_name is not None,
+           "the kernel's O is not offsets.numel()", rel, kern.line)
     # shift: three definitions agree
     shifts = {}
     for f, tag in ((kern, KERNEL), (infer, "_infer_max_direct_descendants"),
@@ -145,17 +192,16 @@ def run(ctx: Ctx):
            f"the sos shift is defined as {shifts}", rel, kern.line, sample=shifts)
     # U in load_state_dict / _infer_max_direct_descendants is the N>1 instance: V + shift + 1
     for f, tag in ((load, "load_state_dict"), (infer, "_infer_max_direct_descendants")):
-        sub = _single_assign_subst(f)
         cand = None
         for n in own_nodes(f.node):
-            if isinstance(n, ast.Assign) and any(isinstance(t, ast.Name) and t.id == "U" for t in n.targets):
+            if isinstance(n, ast.Assign) and "self.vocab_size" in u(n.value) and isinstance(n.value, ast.BinOp) \
+                    and u(n.value).endswith("+ 1"):
                 cand = n.value
         if cand is None:
-            raise AnalysisError(f"C06: U not found in {tag}")
+            raise AnalysisError(f"C06: the unigram count U (vocab_size + shift + 1) was not found in {tag}")
         nz = Normalizer(rename=_ren)
         s_ = _ren(pstr(nz.poly(cand))).replace("0 if 0 <= sos < V else 1", "shift")
-        col.ob("G12", "S3", f"{W(tag)}::U=V+shift+1", s_ in ("1 + V + shift", "1 + shift + V") or
-               sorted(s_.split(" + ")) == ["1", "V", "shift"],
+        col.ob("G12", "S3", f"{W(tag)}::U=V+shift+1", sorted(s_.split(" + ")) == ["1", "V", "shift"],
                f"{tag} uses U = {s_}; the builder's layout for order > 1 is V + shift + 1", rel, cand.lineno, sample=s_)
 
     # the child-scan window: srange = <arange(E)>[:S] must be able to hold the largest fan-out. The builder's
@@ -180,8 +226,17 @@ def run(ctx: Ctx):
                            sample=dict(window=u(n), extent=pstr(ext)))
     if okw is None:
         raise AnalysisError("C06: the child-scan window (arange(...)[:S]) was not found in the kernel")
+    rdi = ReachingDefs(infer.node)
     asserts = [u(n.test) for n in own_nodes(infer.node) if isinstance(n, ast.Assert)]
-    col.ob("G23", "S3", f"{W('_infer_max_direct_descendants')}::asserts-S<U", any(t.replace(" ", "") == "S<U" for t in asserts),
+    okas = False
+    retn = [st for st, _ in rdi.return_envs]
+    for n in own_nodes(infer.node):
+        if isinstance(n, ast.Assert) and isinstance(n.test, ast.Compare) and len(n.test.ops) == 1 \
+                and isinstance(n.test.ops[0], ast.Lt) and isinstance(n.test.comparators[0], ast.Name):
+            ud = rdi.derives(n.test.comparators[0])
+            if any("vocab_size" in u(e) for e in ud.exprs) and retn and u(n.test.left) in u(retn[-1].value):
+                okas = True
+    col.ob("G23", "S3", f"{W('_infer_max_direct_descendants')}::asserts-S<U", okas,
            f"_infer_max_direct_descendants asserts {asserts}; the bound S < U justifies the kernel's window", rel, infer.line)
 
     # ---- S4 load_state_dict: every derived attribute and buffer is (re)assigned -----------------------
@@ -233,12 +288,23 @@ def run(ctx: Ctx):
     col.ob("G10", "S4", f"{W('load_state_dict')}::definite-assignment", bad is None and nret >= 2,
            (f"a non-raising path {bad[1]}: " + bad[0].describe()[:300]) if bad else "", rel, load.line,
            sample=dict(paths=len(paths), non_raising=nret))
-    # each re-allocation takes its shape from the same-named incoming tensor
+    # each re-allocation takes its shape (and dtype) from the same-named incoming tensor
+    rdl = ReachingDefs(load.node)
     for n in own_nodes(load.node):
         if isinstance(n, ast.Assign) and isinstance(n.targets[0], ast.Attribute) and u(n.targets[0].value) == "self" \
                 and n.targets[0].attr in regs and isinstance(n.value, ast.Call):
             a = n.targets[0].attr
-            src = u(n.value.args[0]) if n.value.args else None
+            src = None
+            if n.value.args:
+                a0 = n.value.args[0]
+                src = u(a0)
+                if isinstance(a0, ast.Name):
+                    for d in rdl.defs_of(a0):
+                        v = d.value
+                        if isinstance(v, ast.Subscript) and u(v.value) == "state_dict" and isinstance(v.slice, ast.Constant):
+                            src = v.slice.value
+                if call_name(n.value) not in ("torch.empty_like", "torch.zeros_like"):
+                    src = f"{call_name(n.value)}({src})"
             col.ob("G13", "S4", f"{W('load_state_dict')}::realloc({a})<-{src}", src == a,
                    f"buffer `{a}` is re-allocated like `{src}`", rel, n.lineno, sample=u(n))
 
